@@ -238,7 +238,7 @@ func classify(oracle string, ops, res []string) string {
 	switch oracle {
 	case "agree":
 		want = map[string]bool{"F-C03-lt0pre": true, "F-C03-star-collapse": true, "F-C03-mvn-neg": true,
-			"F-C03-lt-midwild": true, "F-C03-pre000": true, "F-C03-gt-succ-pre": true, "F-C03-signed-ident": true, "F-C03-lt-partial-pre": true, "F-C03-cargo-pre-partial": true}
+			"F-C03-lt-midwild": true, "F-C03-pre000": true, "F-C03-gt-succ-pre": true, "F-C03-signed-ident": true, "F-C03-lt-partial-pre": true, "F-C03-cargo-pre-partial": true, "F-C03-or-merge-pre": true}
 	case "not-rejected":
 		want = map[string]bool{"F-C03-hyphen-wild": true, "F-C03-hyphen-inverted": true, "F-C03-ne-pre0": true, "F-C03-mvn-neg": true, "F-C03-signed-ident": true}
 	}
